@@ -371,6 +371,11 @@ def work_readonly(chunk):
             except Exception as e:      # noqa: BLE001
                 res[name] = ('raised', type(e).__name__, str(e)[:80])
         same = res['read-only'] == res['writable']
+        if not same and res['read-only'][0] != 'raised' and res['writable'][0] != 'raised':
+            # (not an exception: compare the numbers with a tolerance, bit-identity is not part of the statement)
+            def arr(o):
+                return np.frombuffer(o[2], dtype=o[0]).reshape(o[1])
+            same = all(np.allclose(arr(a), arr(b), rtol=1e-9, atol=1e-12) for a, b in zip(res['read-only'], res['writable']))
         jc = dict(kind='readonly', entry=kind, g=gname, p=p, z0=z0, method=method, path=path)
         acc.case(tuple(sorted(jc.items(), key=str)), nontrivial=True, cell='readonly/%s' % kind, outcome=same)
         if not same:
